@@ -177,6 +177,30 @@ var c20Skip = map[string]string{
 }
 
 func runC20(c *an.Ctx) {
+	// ---- R10: the builder hands every validated setting to the component it configures
+	c.Floor("C20-R10", 40)
+	builderWiring(c, "C20-R10", map[string][]string{
+		"initDNS|dnssvc.Config":                                        {"HandleTimeout", "ConnLimiter"},
+		"initDNS|dnssvc.HandlersConfig":                                {"Cache", "RateLimit"},
+		"initProfileDB|profiledb.Config":                               {"FullSyncIvl", "FullSyncRetryIvl", "ResponseSizeEstimate"},
+		"initProfileDB|backendpb.ProfileStorageConfig":                 {"ResponseSizeEstimate"},
+		"initGeoIP|geoip.FileConfig":                                   {"HostCacheCount", "IPCacheCount"},
+		"initFilterStorage|filter/filterstorage.ConfigRuleLists":       nil,
+		"initFilterStorage|filter/filterstorage.ConfigBlockedServices": {"IndexMaxSize", "IndexStaleness", "ResultCacheCount"},
+		"initFilterStorage|filter/filterstorage.ConfigCustom":          nil,
+		"newSafeSearchConfig|filter/filterstorage.ConfigSafeSearch":    {"MaxSize", "RefreshTimeout", "Staleness", "ResultCacheCount"},
+		"initSafeBrowsing|filter/hashprefix.FilterConfig":              {"Staleness", "RefreshTimeout", "CacheTTL", "CacheCount", "MaxSize"},
+		"initAdultBlocking|filter/hashprefix.FilterConfig":             {"Staleness", "RefreshTimeout", "CacheTTL", "CacheCount", "MaxSize"},
+		"initNewRegDomains|filter/hashprefix.FilterConfig":             {"Staleness", "RefreshTimeout", "CacheTTL", "CacheCount", "MaxSize"},
+		"initSafeBrowsing|agdservice.RefreshWorkerConfig":              {"Interval"},
+		"initAdultBlocking|agdservice.RefreshWorkerConfig":             {"Interval"},
+		"initNewRegDomains|agdservice.RefreshWorkerConfig":             {"Interval"},
+		"initFilterStorage|agdservice.RefreshWorkerConfig":             {"Interval"},
+		"initProfileDB|agdservice.RefreshWorkerConfig":                 {"Interval"},
+		"initBillStat|agdservice.RefreshWorkerConfig":                  {"Interval"},
+		"initRateLimiter|agdservice.RefreshWorkerConfig":               {"Interval"},
+		"initMsgConstructor|dnsmsg.ConstructorConfig":                  {"FilteredResponseTTL"},
+	})
 	// ---- R9: what the constructors reject, validation rejects first (shared with C18-R7)
 	c.Floor("C20-R9", 1)
 	c.Borrow("C20-R9", runC18, func(o an.Obligation) bool { return o.Rule == "C18-R7" && strings.Contains(o.Key, "connlimiter.New") })
